@@ -48,10 +48,16 @@ class NotReplayable(Exception):
 def clause_native(c: Contract, clause: str, args: Dict[str, Any], result: Any) -> Any:
     fn = c.cls.__dict__[clause]
     names = list(inspect.signature(fn).parameters)
-    if any(n.startswith("ghost_") for n in names):
-        raise NotReplayable(f"clause {clause} mentions ghost state; it has no native reading")
+    gn = getattr(c.cls, "ghost_native", {})
+    env_g = {}
+    for n in names:
+        if n.startswith("ghost_"):
+            if n[6:] not in gn:
+                raise NotReplayable(f"clause {clause} mentions ghost state ({n}) that has no native reading")
+            env_g[n] = gn[n[6:]](args)
     env = dict(args)
     env["result"] = result
+    env.update(env_g)
     return fn(**{n: env[n] for n in names})
 
 
